@@ -289,22 +289,22 @@ func childMain(path string) {
 	ref := map[string]string{}
 	for e := range entries {
 		m := src.Build()
-		if sc.Start == "already-printed" {
-			_ = m.String()
-		}
+		bringToStart(m, sc.Start)
 		ref[e] = call(e, m)
 	}
 	// does a fresh copy still need IDs? (constructed modules do; parsed modules usually do not, but the
 	// parser leaves the unnamed parameters of declarations unnumbered)
+	// (FreshWrites: measured in the start state of the scenario; after an edit the IDs are stale again)
 	{
 		fm := src.Build()
+		bringToStart(fm, sc.Start)
 		cnt := 0
 		countSetIDs = &cnt
 		mbt.Guard(func() { _ = fm.String() })
 		countSetIDs = nil
 		res.FreshWrites = cnt
 	}
-	numbered := res.FreshWrites == 0 || sc.Start == "already-printed"
+	numbered := res.FreshWrites == 0
 	var mu sync.Mutex // guards res.Mismatches / res.Panics only, after the printing calls
 	for r := 0; r < sc.Rounds; r++ {
 		m := src.Build()
@@ -316,8 +316,8 @@ func childMain(path string) {
 		main := &gbuf{g: 0}
 		st.bufs[goid()] = main
 		hs = st
-		if sc.Start == "already-printed" {
-			_ = m.String()
+		if sc.Start != "never-printed" {
+			bringToStart(m, sc.Start)
 			// the first print is not part of the recording
 			main.evs, main.cur = nil, nil
 			for _, mi := range st.mus {
